@@ -11,8 +11,11 @@ import (
 	"time"
 
 	"github.com/ipfs/go-cid"
+	"github.com/ipld/go-ipld-prime"
 	"github.com/ipld/go-ipld-prime/datamodel"
 	"github.com/ipld/go-ipld-prime/node/basicnode"
+	"github.com/ipld/go-ipld-prime/node/bindnode"
+	"github.com/ipld/go-ipld-prime/schema"
 	selectorparse "github.com/ipld/go-ipld-prime/traversal/selector/parse"
 	"github.com/libp2p/go-libp2p/core/peer"
 
@@ -253,8 +256,52 @@ func (fw *fsmWorld) create(role int) *fsmChan {
 	return c
 }
 
+// typed (schema-bound) values whose representation differs from their type-level view: applications hand
+// such nodes to the library as vouchers (bindnode/codegen types), and what must be stored and sent is the
+// representation.
+type dealVoucher struct {
+	Deal   string
+	Amount int64
+	Paid   bool
+}
+
+var dealVoucherType = func() schema.Type {
+	ts, err := ipld.LoadSchemaBytes([]byte(`type DealVoucher struct {
+		Deal String
+		Amount Int
+		Paid Bool
+	} representation tuple`))
+	if err != nil {
+		panic(err)
+	}
+	return ts.TypeByName("DealVoucher")
+}()
+
+var renamedVoucherType = func() schema.Type {
+	ts, err := ipld.LoadSchemaBytes([]byte(`type RenamedVoucher struct {
+		Deal String (rename "d")
+		Amount Int (rename "a")
+		Paid Bool (rename "p")
+	}`))
+	if err != nil {
+		panic(err)
+	}
+	return ts.TypeByName("RenamedVoucher")
+}()
+
+func genTypedNode(r *RunCtx) datamodel.Node {
+	v := &dealVoucher{Deal: fmt.Sprintf("deal-%d", r.Intn(50)), Amount: int64(r.Intn(1000)), Paid: r.Intn(2) == 0}
+	if r.Intn(2) == 0 {
+		return bindnode.Wrap(v, dealVoucherType)
+	}
+	return bindnode.Wrap(v, renamedVoucherType)
+}
+
 // genNode builds a small IPLD value from the tape.
 func genNode(r *RunCtx, depth int) datamodel.Node {
+	if depth >= 2 && r.Intn(5) == 0 {
+		return genTypedNode(r)
+	}
 	switch k := r.Intn(6); {
 	case k == 0:
 		return basicnode.NewInt(int64(r.Intn(1000)) - 500)
@@ -436,7 +483,7 @@ func (fw *fsmWorld) genArgs(k opKind) opArgs {
 	case opSetReqFin:
 		a.flag = r.Intn(2) == 0
 	case opNewVoucher, opNewVoucherResult:
-		a.tv = datatransfer.TypedVoucher{Voucher: genNode(r, 1), Type: datatransfer.TypeIdentifier(fmt.Sprintf("V%d", r.Intn(3)))}
+		a.tv = datatransfer.TypedVoucher{Voucher: genNode(r, 2), Type: datatransfer.TypeIdentifier(fmt.Sprintf("V%d", r.Intn(3)))}
 	}
 	return a
 }
